@@ -122,7 +122,7 @@ func newDB() *DB {
 		specs: map[string]*SpecFun{}, fields: map[string]*FieldAnn{}, locks: map[string]*LockAnn{}}
 }
 
-var clauseKeywords = map[string]bool{"filter": true, "func": true, "iface": true, "extern": true, "ghost": true, "field": true, "lock": true,
+var clauseKeywords = map[string]bool{"end": true, "filter": true, "func": true, "iface": true, "extern": true, "ghost": true, "field": true, "lock": true,
 	"requires": true, "ensures": true, "modifies": true, "loop": true, "define": true, "spec": true, "axiom": true,
 	"let": true, "lemma": true, "assume": true}
 
@@ -156,6 +156,10 @@ func (db *DB) loadFile(path, pkg string) error {
 		if isGo {
 			t := strings.TrimSpace(line)
 			if !strings.HasPrefix(t, "//@") {
+				// a line without //@ ends the current block
+				if len(raws) > 0 && raws[len(raws)-1].text != "end" {
+					raws = append(raws, rawClause{"end", ln})
+				}
 				continue
 			}
 			line = strings.TrimPrefix(t, "//@")
@@ -260,6 +264,9 @@ func (db *DB) parseClause(text, file string, line int, pkg string, cur **FuncCon
 		return c, nil
 	}
 	switch kw {
+	case "end":
+		*cur = nil
+		return nil
 	case "func", "iface", "extern":
 		fs := strings.Fields(rest)
 		if len(fs) == 0 {
@@ -372,6 +379,7 @@ func (db *DB) parseClause(text, file string, line int, pkg string, cur **FuncCon
 			fmt.Sprintf("%s %scnt(0) == 0", where, nm),
 			fmt.Sprintf("%s forall j int :: {%scnt(j), %scnt(j+1)} 0 <= j && j < len(%s) ==> %scnt(j+1) == %scnt(j) + ite(%s((%s)[j]), 1, 0)", where, nm, nm, src, nm, nm, keep, src),
 			fmt.Sprintf("%s forall a int, b int :: {%scnt(a), %scnt(b)} 0 <= a && a <= b && b <= len(%s) ==> 0 <= %scnt(a) && %scnt(a) <= %scnt(b) && %scnt(b) - %scnt(a) <= b - a", where, nm, nm, src, nm, nm, nm, nm, nm),
+			fmt.Sprintf("%s forall a int, b int :: {%scnt(a), %scnt(b)} 0 <= a && a < b && b <= len(%s) && %s((%s)[a]) ==> %scnt(a) < %scnt(b)", where, nm, nm, src, keep, src, nm, nm),
 			fmt.Sprintf("%s forall m int :: {%sidx(m)} 0 <= m && m < %scnt(len(%s)) ==> 0 <= %sidx(m) && %sidx(m) < len(%s) && %s((%s)[%sidx(m)]) && %scnt(%sidx(m)) == m", where, nm, nm, src, nm, nm, src, keep, src, nm, nm, nm),
 		}
 		for _, g := range gen {
